@@ -27,9 +27,13 @@ def get_reserved_words():
     from mindsdb_sql.parser.dialects.mindsdb.lexer import MindsDBLexer
 
     reserved = RESERVED_KEYWORDS
-    for word in SQLLexer.tokens | MindsDBLexer.tokens:
-        if '_' not in word:
-            # exclude combinations
+    for lexer in (SQLLexer, MindsDBLexer):
+        for word in lexer.tokens:
+            if '_' in word:
+                # exclude combinations (GROUP_BY is "GROUP BY"), keep the keywords written with underscore (PERSIST_ONLY)
+                pattern = getattr(lexer, word, None)
+                if not isinstance(pattern, str) or not re.fullmatch(pattern, word, flags=re.IGNORECASE):
+                    continue
             reserved.add(word)
     return reserved
 
